@@ -532,6 +532,21 @@ func (c *Ctx) CheckGate(rule string, fn *ssa.Function, fnName string, g Guard, s
 			}
 		}
 		msg := fmt.Sprintf("guard not found in %s: no branch tests %s (found %d site(s), need %d); a success return is therefore reachable without the check", fnName, g.Name, len(r.Sites)+r.TailSites, min)
+		// the check is still made somewhere in the function's region (a helper that reports its
+		// verdict in a way the gate does not read: a result struct, a second error value, a
+		// callback): whether its failure is honoured is not decided here
+		inRegion := false
+		if g.Callee != nil {
+			for _, dc := range AllDeepCalls(fn, nil) {
+				if dc.Fr != nil && g.Callee(CalleeName(dc.Call)) {
+					inRegion = true
+				}
+			}
+		}
+		if inRegion {
+			c.add(rule, construct, c.P.Pos(fn.Pos()), Undecided, msg+" (the check is made in a helper whose verdict the gate could not follow)")
+			return false
+		}
 		if !exists || !anySuccess || g.Callee == nil {
 			c.add(rule, construct, c.P.Pos(fn.Pos()), Undecided, msg)
 		} else {
